@@ -107,9 +107,10 @@ static RefDef makeDef(const Shape& sh, const Layout& lay) {
     size_t P = sh.chain.size();
     size_t T = sh.write ? d.masterLen : d.slaveLen;
     if (T < P || (sh.split == 1 && T - (P - 1) == 1)) { d.applicable = false; return d; }
+    if (sh.shortBy > 0 && T < P + (size_t)sh.shortBy) { d.applicable = false; return d; }
     for (size_t i = 0; i < P; i++) {
       bool big = sh.split == 0 ? i == P - 1 : i == 0;
-      d.partLens.push_back(big ? (int)(T - (P - 1)) : 1);
+      d.partLens.push_back(big ? (int)(T - (P - 1)) - sh.shortBy : 1);
       d.ids.push_back(c09::hx(sh.chain[i]));
       if (i) idcol += ";";
       idcol += sh.chain[i];
@@ -529,6 +530,17 @@ static int runDef(Ctx* c, size_t si, const Shape& sh, const Layout& lay, const F
     printf("definition file:%s", d.text.c_str());
     printf("load -> %s %s, %u message(s); ID+master data %u bytes, slave data %u bytes (maximum %d)\n", rc(L.result).c_str(), L.error.c_str(),
            (unsigned)L.msgs.size(), (unsigned)(idLen + d.masterLen), (unsigned)d.slaveLen, MAX_POS);
+  }
+  if (sh.shortBy > 0) {
+    // "a definition whose data would exceed the supported maximum is rejected when loaded": here the maximum is the
+    // capacity the definition itself declares (sum of its explicit part lengths)
+    R.evaluations++;
+    R.distinct(vp::fnv(d.text));
+    if (L.result == RESULT_OK)
+      report(c, string("C09/loaded-too-long/chain-capacity/") + shapeClass(sh), "the explicit part lengths add up to " + std::to_string(sh.shortBy) +
+             " byte(s) less than the defined fields need (" + std::to_string(sh.write ? d.masterLen : d.slaveLen) + "), but the definition was loaded", caseOf(si, d, 0));
+    else R.count("definitions_rejected_short_chain_capacity");
+    return 1;
   }
   if (L.result != RESULT_OK) {
     R.count(tooLong || d.slaveLen > MAX_POS ? "definitions_rejected_too_long" : string("definitions_rejected_within_limits_") + shapeClass(sh) + "_" + lenModeName(sh));
